@@ -376,6 +376,92 @@ pub proof fn lemma_concat_exact<N, const K: usize>(a: Arena<N, K>, h: Map<usize,
         }
     }
 }
+// the same for the edge traversal: the targets of the edges listed below edge e are exactly the nodes at or below e's target, each once
+pub open spec fn lists_e(xs: Seq<EItem>, x: usize) -> bool { exists|j: int| 0 <= j < xs.len() && (#[trigger] xs[j]).3 == x }
+pub open spec fn no_dup_e(xs: Seq<EItem>) -> bool { forall|j1: int, j2: int| 0 <= j1 < j2 < xs.len() ==> (#[trigger] xs[j1]).3 != (#[trigger] xs[j2]).3 }
+pub proof fn lemma_lists_e_concat(xs: Seq<EItem>, ys: Seq<EItem>, x: usize)
+    ensures lists_e(xs + ys, x) <==> lists_e(xs, x) || lists_e(ys, x)
+{
+    let zs = xs + ys;
+    if lists_e(zs, x) {
+        let j = choose|j: int| 0 <= j < zs.len() && (#[trigger] zs[j]).3 == x;
+        if j < xs.len() { assert(xs[j] == zs[j]); } else { assert(ys[j - xs.len()] == zs[j]); }
+    }
+    if lists_e(xs, x) { let j = choose|j: int| 0 <= j < xs.len() && (#[trigger] xs[j]).3 == x; assert(zs[j] == xs[j]); }
+    if lists_e(ys, x) { let j = choose|j: int| 0 <= j < ys.len() && (#[trigger] ys[j]).3 == x; assert(zs[xs.len() + j] == ys[j]); }
+}
+pub proof fn lemma_nodup_e_concat(xs: Seq<EItem>, ys: Seq<EItem>)
+    requires no_dup_e(xs), no_dup_e(ys), forall|x: usize| !(lists_e(xs, x) && lists_e(ys, x))
+    ensures no_dup_e(xs + ys)
+{
+    let zs = xs + ys;
+    assert forall|j1: int, j2: int| 0 <= j1 < j2 < zs.len() implies (#[trigger] zs[j1]).3 != (#[trigger] zs[j2]).3 by {
+        if j2 < xs.len() { assert(zs[j1] == xs[j1] && zs[j2] == xs[j2]); }
+        else if j1 >= xs.len() { assert(zs[j1] == ys[j1 - xs.len()] && zs[j2] == ys[j2 - xs.len()]); }
+        else {
+            assert(zs[j1] == xs[j1] && zs[j2] == ys[j2 - xs.len()]);
+            if zs[j1].3 == zs[j2].3 { assert(lists_e(xs, zs[j1].3)); assert(lists_e(ys, zs[j1].3)); }
+        }
+    }
+}
+pub proof fn lemma_edges_exact<N, const K: usize>(a: Arena<N, K>, h: Map<usize, nat>, d: Map<usize, nat>, e: EItem)
+    requires kids_ok(a), parents_ok(a), kids_unique(a), ranked(a, d), ranked_down(a, h), a.dom().contains(e.3)
+    ensures no_dup_e(pre_edges(a, h, e)), forall|x: usize| lists_e(pre_edges(a, h, e), x) <==> sub_nodes(a, e.3).contains(x)
+    decreases h[e.3], K + 1
+{
+    let i = e.3;
+    let dp = (e.0 + 1) as usize;
+    let tail = concat_edges(a, h, kid_edges(a[i].children, 0, dp, i), h[i]);
+    lemma_concat_edges_exact(a, h, d, i, 0, dp);
+    lemma_c_sub_split(a, d, i);
+    let head = seq![e];
+    assert(pre_edges(a, h, e) == head + tail);
+    assert(no_dup_e(head));
+    assert forall|x: usize| lists_e(head, x) <==> x == i by { if x == i { assert(head[0].3 == i); } }
+    assert forall|x: usize| !(lists_e(head, x) && lists_e(tail, x)) by { }
+    lemma_nodup_e_concat(head, tail);
+    assert forall|x: usize| lists_e(pre_edges(a, h, e), x) <==> sub_nodes(a, i).contains(x) by {
+        lemma_lists_e_concat(head, tail, x);
+        assert(sub_nodes(a, i).contains(x) <==> (x == i || kids_nodes(a, i, 0).contains(x)));
+    }
+}
+pub proof fn lemma_concat_edges_exact<N, const K: usize>(a: Arena<N, K>, h: Map<usize, nat>, d: Map<usize, nat>, i: usize, lo: int, dp: usize)
+    requires kids_ok(a), parents_ok(a), kids_unique(a), ranked(a, d), ranked_down(a, h), a.dom().contains(i), 0 <= lo <= K
+    ensures no_dup_e(concat_edges(a, h, kid_edges(a[i].children, lo, dp, i), h[i])),
+        forall|x: usize| lists_e(concat_edges(a, h, kid_edges(a[i].children, lo, dp, i), h[i]), x) <==> kids_nodes(a, i, lo).contains(x)
+    decreases h[i], K - lo
+{
+    let ch = a[i].children;
+    if lo >= K {
+        assert(kid_edges(ch, lo, dp, i) =~= Seq::<EItem>::empty());
+        assert(kids_nodes(a, i, lo) =~= Set::<usize>::empty());
+    } else {
+        lemma_c_kids_split(a, d, i, lo);
+        lemma_concat_edges_exact(a, h, d, i, lo + 1, dp);
+        if ch[lo] is Some {
+            let c = ch[lo].unwrap();
+            let item: EItem = (dp, i, lo as usize, c);
+            let rest = kid_edges(ch, lo + 1, dp, i);
+            let all = kid_edges(ch, lo, dp, i);
+            assert(all == seq![item] + rest);
+            assert(all[0] == item);
+            assert(all.drop_first() =~= rest);
+            assert(a.dom().contains(c) && h[c] < h[i]);
+            lemma_edges_exact(a, h, d, item);
+            let xs = pre_edges(a, h, item);
+            let ys = concat_edges(a, h, rest, h[i]);
+            assert(concat_edges(a, h, all, h[i]) == xs + ys);
+            assert forall|x: usize| !(lists_e(xs, x) && lists_e(ys, x)) by {
+                assert(!(sub_nodes(a, c).contains(x) && kids_nodes(a, i, lo + 1).contains(x)));
+            }
+            lemma_nodup_e_concat(xs, ys);
+            assert forall|x: usize| lists_e(xs + ys, x) <==> kids_nodes(a, i, lo).contains(x) by {
+                lemma_lists_e_concat(xs, ys, x);
+                assert(kids_nodes(a, i, lo).contains(x) <==> (sub_nodes(a, c).contains(x) || kids_nodes(a, i, lo + 1).contains(x)));
+            }
+        }
+    }
+}
 // ---- breadth-first: the queue partitions what is still to come ----
 // nodes still to come: everything at or below a queue entry
 pub open spec fn queue_covers<N, const K: usize>(a: Arena<N, K>, q: Seq<DfsNodeData>, x: usize) -> bool {
